@@ -19,6 +19,12 @@ impl ECIESCiphertext {
     }
 
     pub(crate) fn from_bytes_impl(buffer: &[u8], has_pub_key: bool) -> Result<ECIESCiphertext, BSVErrors> {
+        // magic (4) + optional compressed public key (33) + at least one AES block (16) + HMAC (32)
+        let min_len = if has_pub_key { PUB_KEY_END as usize + 16 + 32 } else { 4 + 16 + 32 };
+        if buffer.len() < min_len {
+            return Err(BSVErrors::ECIESError(format!("Ciphertext is too short: {} bytes, expected at least {}", buffer.len(), min_len)));
+        }
+
         let pub_key = match has_pub_key {
             true => {
                 let pub_key_buf = &buffer[PUB_KEY_OFFSET as usize..PUB_KEY_END as usize];
